@@ -208,18 +208,33 @@ func runC0405(cfg *config, res *monitor.Result) {
 			}
 			nonTrivial := len(bridge.SortedFieldNumbers(c.Msg.ProtoReflect())) > 0
 			// second pass: the same contents held in the "empty but allocated" Go representation
-			for pass := 0; pass < 4; pass++ {
+			for pass := 0; pass < 5; pass++ {
 				emptyNonNil = pass == 1
 				nilElems = pass == 2
 				nilMapValues = nilElems && isC04
 				extInUnknown = pass == 3
+				invalidUTF8 = pass == 4
 				repTag := ""
+				if invalidUTF8 {
+					// strings holding bytes that are not valid UTF-8: Size/Marshal/MarshalTo must still agree (C04 only)
+					invalidUTF8Poked = 0
+					if !isC04 || (c.Class == "random" && ci%3 != 0) {
+						invalidUTF8 = false
+						continue
+					}
+					if _, err := build(t, c.Msg); err != nil || invalidUTF8Poked == 0 {
+						invalidUTF8 = false
+						continue
+					}
+					repTag = "invalid-utf8:"
+					classes[t.pkg.Flavour+"/"+string(t.md.Name())+"/invalid-utf8"]++
+				}
 				if extInUnknown {
 					// the message as code that does not know its extensions left it: extension fields encoded in the unknown fields
 					extInUnknownPoked = 0
 					if _, err := build(t, c.Msg); err != nil || extInUnknownPoked == 0 {
 						extInUnknown = false
-						break
+						continue
 					}
 					repTag = "ext-in-unknown:"
 					classes[t.pkg.Flavour+"/"+string(t.md.Name())+"/ext-in-unknown"]++
@@ -324,7 +339,7 @@ func runC0405(cfg *config, res *monitor.Result) {
 					}
 				}
 			}
-			emptyNonNil, nilElems, nilMapValues, extInUnknown = false, false, false, false
+			emptyNonNil, nilElems, nilMapValues, extInUnknown, invalidUTF8 = false, false, false, false, false
 			if nonTrivial {
 				cls := c.Class
 				if c.Field != "" {
